@@ -417,6 +417,16 @@ void ares_event_thread_destroy(ares_channel_t *channel)
   channel->notify_pending_write_cb_data = NULL;
 }
 
+void ares_event_thread_timeout_changed(const ares_channel_t *channel)
+{
+  if (!(channel->optmask & ARES_OPT_EVENT_THREAD)) {
+    return;
+  }
+
+  /* The thread recomputes how long it may sleep each time it comes around */
+  ares_event_thread_wake(channel->sock_state_cb_data);
+}
+
 static const ares_event_sys_t *ares_event_fetch_sys(ares_evsys_t evsys)
 {
   switch (evsys) {
@@ -560,6 +570,11 @@ ares_status_t ares_event_thread_init(ares_channel_t *channel)
 }
 
 void ares_event_thread_destroy(ares_channel_t *channel)
+{
+  (void)channel;
+}
+
+void ares_event_thread_timeout_changed(const ares_channel_t *channel)
 {
   (void)channel;
 }
